@@ -57,6 +57,9 @@ impl StateMachine<'_> {
         // (it connects the plus_file and minus_file),
         // and to call fn handle_generic_diff_header_header_line directly.
         if self.config.color_only {
+            // Buffered hunk lines of the previous file come first (diff -u input has no "diff"
+            // line between files at which they would have been written out).
+            self.painter.emit()?;
             write_generic_diff_header_header_line(
                 &self.line,
                 &self.raw_line,
